@@ -222,8 +222,9 @@ class PreprocessorData:
                 f"(this usually happens after a 'reserve' or 'segment' that isn't 2*w-aligned).",
             )
         ops_to_pad = (-self.curr_address // op_size) % ops_alignment
-        if self.curr_address + ops_to_pad * op_size > (1 << self.memory_width):
-            # refuse it here: materializing that many padding-ops only to fail later can take forever
+        if ops_to_pad * op_size > (1 << self.memory_width):
+            # the padding alone is bigger than the whole memory. refuse it here: materializing that many padding-ops
+            #  only to fail later can take forever (a program that is merely too big is reported when it's written)
             macro_resolve_error(
                 self.curr_tree,
                 f"'pad {hex(ops_alignment)}' needs {hex(ops_to_pad)} padding ops here, "
